@@ -34,7 +34,12 @@ def task_volume_model():
             for has_eps in (False, True):
                 def mk(ctx, case=case, has_mu=has_mu, has_eps=has_eps):
                     def backward(it, args, kw, node):
+                        # contract of Map*.backward (C14): element-wise BW(p); the result is a new array OR the argument itself (the
+                        # identity map MapConductivity returns its input) -- both are explored
                         p = args[-1]
+                        if it.ctx.branch(it.ctx.fresh_bool('backward_returns_its_argument'), 'aliasing of backward'):
+                            it.ctx.assume(BW(p.store.val) == p.store.val)
+                            return p
                         return cx.NDArr(cx.Store('conductivity', BW(p.store.val)))
                     ctx.summaries['maps.BaseMap.backward'] = backward
                     props = {}
